@@ -131,6 +131,9 @@ def _restore_paths_of(ctx, cls, owner, fn):
 
 
 def run(ctx: Context, col) -> None:
+    from .common import Parts
+
+    part = Parts()
     for cls in ctx.solvers():
         loop = ctx.solve_loop(cls)
         eff = ctx.effects(cls)
@@ -167,10 +170,11 @@ def run(ctx: Context, col) -> None:
         if rother:
             col.add("R9.2", f"{cls.name}._restore_state_from_checkpoint", ro.module.relpath, rother[0].lineno, False,
                     f"statement is not `self.<attr> = <param>.<path>`: {norm_text(rother[0])}", text=norm_text(rother[0]))
-        _save_placement(ctx, cls, loop, L, col)
-        _no_state_writes(ctx, cls, L | set(spaths), col)
+        part(_save_placement, ctx, cls, loop, L, col)
+        part(_no_state_writes, ctx, cls, L | set(spaths), col)
         template_kinds(ctx, cls, col, "R9.6")
-    _save_body(ctx, col)
+    part(_save_body, ctx, col)
+    part.finish()
     col.floor("R9.6", 10)
     col.floor("R9.1", 14)
     col.floor("R9.2", 17)
